@@ -49,7 +49,8 @@ class C19Struct(Scenario):
     def gen_config(self, rng):
         name = rng.choice(sorted(structs.ALL_SUBJECTS))
         cfg = structs.gen_cfg_for(name, rng)
-        cfg.update({"subject": name, "steps": rng.between(3, self.max_steps), "saturate": rng.chance(1, 6)})
+        cfg.update({"subject": name, "steps": rng.between(3, self.max_steps), "saturate": rng.chance(1, 6),
+                    "negatives": rng.chance(1, 3)})
         return cfg
 
     def gen_step(self, rng):
